@@ -636,6 +636,27 @@ void single_case(RBox const &b)
     if (!degenerate(N, b) && !r_in(N, b, c)) fail("box::center|outside-box", ctx() + ": center = " + show(N, c));
   }
   if (!(fbx == fbx) || fbx != fbx || fbx < fbx) fail("box::comparison|reflexive", ctx());
+  // the non-const pos() / max() hand out references: a box whose corners were WRITTEN through them
+  // is the box with those corners for every other member and function (size, comparison, corners)
+  {
+    box m = fb::null<box>();
+    m.max() = fbx.max();
+    m.pos() = fbx.pos();
+    if (!same(N, rdbox(m), b)) fail("box::object|corners-written-through-accessors|pos-max", ctx() + ": reads back as " + show(N, rdbox(m)));
+    if (!(m == fbx) || m != fbx) fail("box::object|corners-written-through-accessors|comparison", ctx() + ": differs from the box constructed with these corners");
+    if (std::is_signed_v<T> || ordered(N, b))
+    {
+      if (!(m.size() == fbx.size())) fail("box::object|corners-written-through-accessors|size", ctx() + ": size() = " + show(N, rd<N>(m.size())) + " after writing the corners, the constructed box has " + show(N, rd<N>(fbx.size())));
+      auto cm = fb::corner_points(m);
+      auto cf = fb::corner_points(fbx);
+      std::vector<A3> a, c2;
+      for (auto const &v : cm) a.push_back(rd<N>(v));
+      for (auto const &v : cf) c2.push_back(rd<N>(v));
+      std::sort(a.begin(), a.end());
+      std::sort(c2.begin(), c2.end());
+      if (a != c2) fail("box::object|corners-written-through-accessors|corner_points", ctx());
+    }
+  }
 }
 void set_cur_single(bool uns, std::size_t n, RBox const &b) { cur({uns ? 1 : 0, static_cast<i64>(n), b.p[0], b.p[1], b.p[2], b.m[0], b.m[1], b.m[2]}); }
 void single_one(Ints const &c)
